@@ -5,6 +5,8 @@ import (
 	"iter"
 	"math"
 	"slices"
+	"strconv"
+	"strings"
 	"sync/atomic"
 
 	"reduction.dev/reduction/dkv/fields"
@@ -27,6 +29,27 @@ func NewTableWriter(fs storage.FileSystem, id int64) *TableWriter {
 	atomicNum := &atomic.Int64{}
 	atomicNum.Store(id)
 	return &TableWriter{fs: fs, id: atomicNum}
+}
+
+// AdvancePast makes sure that every table written from now on gets an ID
+// greater than the given one.
+func (c *TableWriter) AdvancePast(id int64) {
+	for {
+		cur := c.id.Load()
+		if cur > id || c.id.CompareAndSwap(cur, id+1) {
+			return
+		}
+	}
+}
+
+// TableID returns the ID encoded in a table file name like "000012.sst".
+func TableID(fileName string) (id int64, ok bool) {
+	base, found := strings.CutSuffix(fileName, ".sst")
+	if !found {
+		return 0, false
+	}
+	id, err := strconv.ParseInt(base, 10, 64)
+	return id, err == nil
 }
 
 func (c *TableWriter) Write(entries iter.Seq[kv.Entry]) (*Table, error) {
